@@ -12,7 +12,7 @@ The model and the runner read only the first four tokens.
 """
 ID = 'C02'
 PROFILES = ['debug']
-THEOREMS = []            # filled at the bottom (kept in one place with the Coq file)
+THEOREMS = []
 RULE = ('random values (depth <= 8; names over all non-zero bytes, strings over all bytes, i64/i128 boundary numbers) x a '
         'random legal spelling (whitespace/comments between tokens, #-escapes, balanced/escaped parentheses, hex case/'
         'whitespace/odd digits, leading zeros/signs) x following context (end, each delimiter, whitespace, keyword, "0 R"); '
@@ -681,7 +681,6 @@ def classify(case, obs):
     return k + ':' + obs.split(' ')[0]
 
 
-THEOREMS = []
 LEVEL_TEXT = ''
 LEVEL_NOTE = ''
 TECHNIQUE = ''
